@@ -12,8 +12,9 @@ What is mirrored, function by function:
   http/preprocessor.Preprocessor.Process                  → `runPre`
   guns/http_scenario ScenarioGun.shoot / shootStep        → `shootStep`, `shootLoop`, `shoot`
 
-Partial Go operations are explicit outcomes: index −1 of an empty step list (`sleep()` first), `make` with a
-negative capacity, `% 0` / `v[-1]` / `Intn(0)` on an empty data source.
+Partial Go operations are explicit outcomes: `make` with a negative capacity and a zero divisor in `SpreadNames`
+(negative weights) are panics; `sleep()` with no step before it and indexing into an empty data source are
+errors (since the repairs 4ebec35 and d4ccb1f; they were an index −1 and a `% 0` panic before).
 
 Templating (text/template over the variable tree), the target and the postprocessor libraries are
 parameters (`World`): the theorems quantify over all of them.
@@ -136,8 +137,9 @@ def bumpLast {ρ} (acc : List (Step ρ)) (ms : Int) : Option (List (Step ρ)) :=
 /-- the loop body of `convertScenarioToAmmo` for one parsed item -/
 def expandItem {ρ} (reqs : List Char → Option ρ) (acc : List (Step ρ)) (it : Item) : Outcome (List (Step ρ)) :=
   if it.name == sleepName then
+    -- `if len(result.Requests) == 0 { return nil, fmt.Errorf("%s must follow a request", sh) }`
     match bumpLast acc it.cnt with
-    | none => .panic "index"
+    | none => .err "sleepfirst"
     | some acc' => .ok acc'
   else match reqs it.name with
     | none => .err "notfound"
@@ -311,20 +313,21 @@ def Iter.rand (it : Iter) (len : Nat) : Nat × Iter :=
 
 def trimS (s : String) : String := String.ofList (trimSpace s.toList)
 
-/-- `calcIndex` -/
+/-- `calcIndex`: a non-numeric index other than next/rand/last is an error, then an empty segment is an error -/
 def calcIndex (indexStr : String) (seg : String) (len : Nat) (id : Nat) (it : Iter) : Outcome (Nat × Iter) :=
-  if indexStr == "last" then
-    if len == 0 then .panic "index" else .ok (len - 1, it)
-  else if indexStr == "rand" then
-    if len == 0 then .panic "intn0" else let (r, it') := it.rand len; .ok (r, it')
+  let kw := indexStr == "last" || indexStr == "rand" || indexStr == "next"
+  let num := atoi indexStr.toList
+  if num.isNone && !kw then .err "bad-index"
+  else if len == 0 then .err "empty"
+  else if indexStr == "last" then .ok (len - 1, it)
+  else if indexStr == "rand" then let (r, it') := it.rand len; .ok (r, it')
   else if indexStr == "next" then
     let (i, it') := it.next id seg
-    if i ≥ len then (if len == 0 then .panic "div0" else .ok (i % len, it')) else .ok (i, it')
-  else match atoi indexStr.toList with
+    if i ≥ len then .ok (i % len, it') else .ok (i, it')
+  else match num with
     | none => .err "bad-index"
     | some i =>
       if 0 ≤ i ∧ i < len then .ok (i.toNat, it)
-      else if len == 0 then .panic "div0"
       else
         let r := Int.tmod i len
         .ok ((if r < 0 then r + len else r).toNat, it)
@@ -482,5 +485,74 @@ def shootLoop {Req Resp} (w : World Req Resp) (source : Val) (scName : String) :
 def shoot {Req Resp} (w : World Req Resp) (source : Val) (sc : Scenario ReqDef) (g : GState Req) :
     Option (Bool × GState Req) :=
   shootLoop w source (String.ofList sc.name) sc.steps [] g
+
+/-! ## 7. `NextIterator.Next` under concurrency
+
+All instances of a pool share the `NextIterator` of a scenario (`convertScenarioToAmmo` creates one per scenario,
+`InitIterator` stores it in the shared preprocessor object). `Next` is `mx.Lock(); a, ok := gs[segment];
+insert 0 / a.Add(1); mx.Unlock()`. The system below takes these four actions as separate small steps of any
+number of threads under an arbitrary scheduler; a thread that finds the mutex taken does not move. -/
+
+abbrev CKey := Nat × String
+
+inductive NPc where
+  | idle
+  | locked (key : CKey)                      -- holds the mutex, before `n.gs[segment]`
+  | read (key : CKey) (cur : Option Nat)     -- after `a, ok := n.gs[segment]`
+  | wrote (key : CKey) (v : Nat)             -- after the insert / `a.Add(1)`, before the deferred `Unlock`
+deriving Repr, DecidableEq
+
+def upd {α} (f : Nat → α) (t : Nat) (a : α) : Nat → α := fun i => if i = t then a else f i
+
+/-- `a, ok := n.gs[segment]` -/
+def gsRead (gs : List (CKey × Nat)) (key : CKey) : Option Nat := (gs.find? (·.1 == key)).map (·.2)
+
+/-- `n.gs[segment] = &atomic.Uint64{}; return 0` resp. `return int(a.Add(1))` -/
+def gsWrite (gs : List (CKey × Nat)) (key : CKey) (cur : Option Nat) : Nat × List (CKey × Nat) :=
+  match cur with
+  | none => (0, gs ++ [(key, 0)])
+  | some c => (c + 1, gs.map fun e => if e.1 == key then (e.1, c + 1) else e)
+
+structure NSys where
+  holder : Option Nat                 -- the mutex
+  gs : List (CKey × Nat)              -- the counter map
+  pcs : Nat → NPc
+  got : Nat → List Nat                -- values returned to each thread so far
+  log : List (CKey × Nat × Nat)       -- ghost: (counter, thread, value) in the order the calls return
+
+def NSys.init : NSys := { holder := none, gs := [], pcs := fun _ => .idle, got := fun _ => [], log := [] }
+
+/-- which counter a thread asks next, given the values it has received so far (`none`: it makes no further call) -/
+abbrev NProg := Nat → List Nat → Option CKey
+
+/-- one small step of thread `t` -/
+def NSys.step (prog : NProg) (s : NSys) (t : Nat) : NSys :=
+  match s.pcs t with
+  | .idle =>
+    match prog t (s.got t), s.holder with
+    | some key, none => { s with holder := some t, pcs := upd s.pcs t (.locked key) }
+    | _, _ => s                         -- nothing to do, or blocked in `Lock()`
+  | .locked key => { s with pcs := upd s.pcs t (.read key (gsRead s.gs key)) }
+  | .read key cur =>
+    let (v, gs') := gsWrite s.gs key cur
+    { s with gs := gs', pcs := upd s.pcs t (.wrote key v) }
+  | .wrote key v =>
+    { s with holder := none, pcs := upd s.pcs t .idle, got := upd s.got t (s.got t ++ [v]),
+             log := s.log ++ [(key, t, v)] }
+
+/-- a schedule is the list of thread ids in the order they move -/
+def NSys.run (prog : NProg) (s : NSys) (sched : List Nat) : NSys := sched.foldl (NSys.step prog) s
+
+/-- the values one counter has handed out, in the order the calls returned -/
+def logVals (log : List (CKey × Nat × Nat)) (key : CKey) : List Nat := (log.filter (·.1 == key)).map (·.2.2)
+
+/-- the values thread `t` has received according to the log -/
+def logValsOf (log : List (CKey × Nat × Nat)) (t : Nat) : List Nat := (log.filter (·.2.1 == t)).map (·.2.2)
+
+def NSys.vals (s : NSys) (key : CKey) : List Nat := logVals s.log key
+def NSys.valsOf (s : NSys) (t : Nat) : List Nat := logValsOf s.log t
+
+/-- the row `calcIndex` selects for a `[next]` value over a source of `len` rows -/
+def rowOf (len i : Nat) : Nat := if i ≥ len then i % len else i
 
 end Pandora.Model.C15
